@@ -21,16 +21,19 @@ open TaskModel.Vars
 /-- **The code consults the sites in the documented order** (lowest priority first: global
 env, global vars incl. command-line assignments, vars of the include statement, vars of the
 included Taskfile, call vars, task vars; OS environment and special variables before all),
-`sh:` of the included Taskfile's and the task's own vars run in the task directory, which
-is resolved after the global and include layers; command env = global env, then task
+`sh:` of the included Taskfile's and the task's own vars run in the task directory, which is
+resolved each time such a variable needs it (over what is known by then, `~` expanded: fix
+PENDING-V8-3); command env = global env, then task
 dotenv (first file wins), then task env; process environment wins unless the experiment. -/
 theorem C10_layers :
     TaskModel.Gen.VarLayers.order =
       [("Compiler.TaskfileEnv", "root"), ("Compiler.TaskfileVars", "root"), ("ast.Task.IncludeVars", "root"),
        ("ast.Task.IncludedTaskfileVars", "task"), ("Call.Vars", "root"), ("ast.Task.Vars", "task")] ∧
     TaskModel.Gen.VarLayers.marks =
-      ["osEnviron", "special", "loop:Compiler.TaskfileEnv", "loop:Compiler.TaskfileVars", "loop:ast.Task.IncludeVars", "taskDirResolved",
+      ["osEnviron", "special", "loop:Compiler.TaskfileEnv", "loop:Compiler.TaskfileVars", "loop:ast.Task.IncludeVars", "taskDirClosure",
        "loop:ast.Task.IncludedTaskfileVars", "returnIfNoTaskOrCall", "loop:Call.Vars", "loop:ast.Task.Vars"] ∧
+    TaskModel.Gen.VarLayers.taskDirPerVariable = true ∧
+    TaskModel.Gen.VarLayers.taskDirExpandsLiteral = true ∧
     TaskModel.Gen.VarLayers.envMerges = ["e.Taskfile.Env", "dotenvEnvs", "origTask.Env"] ∧
     TaskModel.Gen.VarLayers.firstDotenvWins = true ∧
     TaskModel.Gen.VarLayers.appendsToOsEnviron = true ∧
@@ -56,42 +59,22 @@ flags of the extracted table; swapping two sites of `docOrder` breaks this) -/
 theorem docOrder_matches :
     docOrder.map (fun s => (siteCodeName s, if s.inTaskDir then "task" else "root")) = TaskModel.Gen.VarLayers.order := by decide
 
-/-- the code resolves the task directory after exactly the three layers the model's `dirAfter = 3` says -/
-theorem dirAfter_matches :
-    TaskModel.Gen.VarLayers.marks.take 6 =
-      ["osEnviron", "special", "loop:Compiler.TaskfileEnv", "loop:Compiler.TaskfileVars", "loop:ast.Task.IncludeVars", "taskDirResolved"] := by decide
-
-/-- last-write-wins over an arbitrary list of layers (helper; the directory is whatever `stepLayer` uses) -/
-theorem last_wins_layers (w : World) (cx : Ctx) (base : Env) (c : Cache)
-    (pre post : List Layer) (L : Layer) (dpre dpost : List (Name × VarDef)) (m : Name) (d : VarDef)
-    (hL : L.defs = dpre ++ (m, d) :: dpost) (hdpost : m ∉ names dpost)
-    (hpost : ∀ l ∈ post, m ∉ names l.defs) :
-    ∃ (s : St) (dir : Str),
-      s = runLayers w cx pre 0 { td := none, env := base, cache := c } ∧
-      get (getVariables w cx base (pre ++ L :: post) c).env m =
-        (evalDef w dir (evalBlock w dir dpre s.env s.cache).1 (evalBlock w dir dpre s.env s.cache).2 d).1 := by
-  simp only [getVariables]
-  rw [runLayers_append]
-  simp only [runLayers]
-  rw [runLayers_frame _ _ _ _ _ _ hpost]
-  simp only [stepLayer, hL]
-  exact ⟨_, _, rfl, evalBlock_last w _ dpre dpost m d _ _ hdpost⟩
-
 /-- **Highest-priority definition wins, evaluated over lower priorities** — for the six sites in
-the documented order, the task compiled alone (empty cache), the directory pinned.  If the
-last definition of `m` in processing order is `d`, at site `s` after the definitions `dpre` of
-that site, and no higher site defines `m`, the value every consumer sees is `d` evaluated
-over exactly what the sites below `s` and `dpre` resolved (`stateBefore`), in the directory of
-that site: the root directory, or for the included-Taskfile and task sites the task's `dir:`
-rendered over what the global and include-statement layers resolved (`siteDir`). -/
-theorem C10_last_wins (w : World) (cx : Ctx) (hcx : cx.dirAfter = 3) (base : Env) (defs : Site → Defs) (s : Site)
+the documented order, the task compiled alone (empty cache).  If the last definition of `m` in
+processing order is `d`, at site `s` after the definitions `dpre` of that site, and no higher site
+defines `m`, the value every consumer sees is `d` evaluated over exactly what the sites below `s`
+and `dpre` resolved (`stateBefore`, then `dpre`), in the directory of that site AT THAT MOMENT: the
+root directory, or for the included-Taskfile and task sites the task's `dir:` rendered over
+those very variables (`siteDirf`). -/
+theorem C10_last_wins (w : World) (cx : Ctx) (base : Env) (defs : Site → Defs) (s : Site)
     (dpre dpost : Defs) (m : Name) (d : VarDef)
     (hs : defs s = dpre ++ (m, d) :: dpost) (hdpost : m ∉ names dpost)
     (hafter : ∀ s' ∈ sitesAfter s, m ∉ names (defs s')) :
     get (getVariables w cx base (layersOf defs) []).env m =
-      (evalDef w (siteDir w cx base defs s)
-        (evalBlock w (siteDir w cx base defs s) dpre (stateBefore w cx base defs s).env (stateBefore w cx base defs s).cache).1
-        (evalBlock w (siteDir w cx base defs s) dpre (stateBefore w cx base defs s).env (stateBefore w cx base defs s).cache).2 d).1 := by
+      (evalDef w
+        (siteDirf cx s (evalBlock w (siteDirf cx s) dpre (stateBefore w cx base defs s).env (stateBefore w cx base defs s).cache).1)
+        (evalBlock w (siteDirf cx s) dpre (stateBefore w cx base defs s).env (stateBefore w cx base defs s).cache).1
+        (evalBlock w (siteDirf cx s) dpre (stateBefore w cx base defs s).env (stateBefore w cx base defs s).cache).2 d).1 := by
   rw [layersOf_split defs s]
   simp only [getVariables]
   rw [runLayers_append]
@@ -101,26 +84,23 @@ theorem C10_last_wins (w : World) (cx : Ctx) (hcx : cx.dirAfter = 3) (base : Env
     simp only [List.mem_map] at hl
     obtain ⟨s', hs', rfl⟩ := hl
     exact hafter s' hs'
-  rw [runLayers_frame _ _ _ _ _ _ hpost]
-  have hdir := layerDir_site w cx hcx base defs s
-  simp only [stateBefore] at hdir ⊢
-  simp only [stepLayer, List.length_map, Nat.zero_add, hdir]
-  simp only [lay, hs]
+  rw [runLayers_frame _ _ _ _ _ hpost]
+  simp only [stepLayer, stateBefore, lay, hs]
   exact evalBlock_last w _ dpre dpost m d _ _ hdpost
 
 /-- a name defined at no site keeps the value of the process environment / special variables -/
 theorem C10_undefined (w : World) (cx : Ctx) (base : Env) (c : Cache) (layers : List Layer) (m : Name)
     (h : ∀ l ∈ layers, m ∉ names l.defs) : get (getVariables w cx base layers c).env m = get base m :=
-  runLayers_frame w cx layers 0 _ m h
+  runLayers_frame w cx layers _ m h
 
 /-- lower-priority sites are irrelevant once a higher one defines the name with a literal:
 the documented order, site by site -/
-theorem C10_literal_priority (w : World) (cx : Ctx) (hcx : cx.dirAfter = 3) (base : Env) (defs : Site → Defs) (s : Site)
+theorem C10_literal_priority (w : World) (cx : Ctx) (base : Env) (defs : Site → Defs) (s : Site)
     (dpre dpost : Defs) (m : Name) (v : Str)
     (hs : defs s = dpre ++ (m, .lit [.text v]) :: dpost) (hdpost : m ∉ names dpost)
     (hafter : ∀ s' ∈ sitesAfter s, m ∉ names (defs s')) :
     get (getVariables w cx base (layersOf defs) []).env m = v := by
-  rw [C10_last_wins w cx hcx base defs s dpre dpost m _ hs hdpost hafter]
+  rw [C10_last_wins w cx base defs s dpre dpost m _ hs hdpost hafter]
   simp [evalDef, render]
 
 /-! ## environment seen by commands -/
@@ -293,7 +273,7 @@ example :
     let genv : Defs := [(0, .lit [.text [101, 45], .ref 1])]
     let defs : Site → Defs := fun s => match s with
       | .taskfileEnv => genv | .taskfileVars => [(1, .lit [.text [120]])] | .taskVars => [(1, .lit [.text [121]])] | _ => []
-    let final := (getVariables w ⟨[], [], 3⟩ [] (layersOf defs) []).env
+    let final := (getVariables w ⟨[], [], []⟩ [] (layersOf defs) []).env
     (get final 0, commandSees w (compiledEnv w final genv [] [] [] []).1 0) = ([101, 45], some [101, 45, 121]) := by decide
 
 /-! ## non-vacuity -/
@@ -304,7 +284,7 @@ private def defs0 : Site → List (Name × VarDef)
   | .callVars => [(2, .lit [.text [21], .ref 1])]
   | .taskVars => [(3, .sh [.text [5], .ref 2] none)]
   | _ => []
-example : let e := (getVariables ⟨sh0, [], false⟩ ⟨[1], [], 3⟩ [] (layersOf defs0) []).env
+example : let e := (getVariables ⟨sh0, [], false⟩ ⟨[1], [], []⟩ [] (layersOf defs0) []).env
     (get e 1, get e 2, get e 3) = ([11], [21, 11], [5, 21, 11, 64, 1]) := by decide
 
 /-! ## `sh:` env entries see the Taskfile's env -/
@@ -384,7 +364,7 @@ theorem C10_special_overridden (w : World) (home : Str) (cd : CallDesc) (s : Sit
     get (compile w home cd []).vars n = v := by
   simp only [compile]
   rw [get_postLayer_other _ _ _ hfp]
-  exact C10_literal_priority w (ctxOf cd.tc) rfl _ _ s dpre dpost n v hs hdpost hafter
+  exact C10_literal_priority w (ctxOf cd.tc home) _ _ s dpre dpost n v hs hdpost hafter
 
 /-- the clause at full strength: a definition at a site always wins over what Task provides itself -/
 def C10_special_unless_overridden_full : Prop :=
@@ -540,7 +520,7 @@ theorem C10_cli_merged_split (dpre dpost cli : Defs) (g : Name) (d : VarDef)
 command line (`x=v`, or one of the `CLI_*` names) gets `v` iff `x` stands before `g` in the
 merged layer, i.e. iff `x` is also declared before `g`; otherwise it gets what the lower
 layers (process environment, special variables) hold for `x` — nothing, usually. -/
-theorem C10_cli_ref_iff (w : World) (dir : Str) (base : Env) (c : Cache) (dpre dpost cli : Defs) (g x : Name) (v : Str)
+theorem C10_cli_ref_iff (w : World) (dir : Env → Str) (base : Env) (c : Cache) (dpre dpost cli : Defs) (g x : Name) (v : Str)
     (hnd : (names (dpre ++ (g, .lit [.ref x]) :: dpost)).Nodup) (hcli : (names cli).Nodup)
     (hg : g ∉ names cli) (hx : cli.lookup x = some (.lit [.text v])) :
     get (evalBlock w dir (taskfileVars (dpre ++ (g, .lit [.ref x]) :: dpost) cli) base c).1 g =
@@ -563,12 +543,12 @@ theorem C10_cli_ref_iff (w : World) (dir : Str) (base : Env) (c : Cache) (dpre d
 /- non-vacuity: `vars: {Y: '{{.X}}'}` with `task t X=1` — Y sees nothing; with X also declared
 before Y it sees 1; declared after Y: nothing (but X itself is 1) -/
 private def shC : Shell := fun cmd _ _ => cmd
-example : get (evalBlock ⟨shC, [], false⟩ [] (taskfileVars [(1, .lit [.ref 0])] (cliLayer [(0, [.text [49]])] [] {})) [] []).1 1 = [] := by decide
-example : get (evalBlock ⟨shC, [], false⟩ [] (taskfileVars [(0, .lit [.text [100]]), (1, .lit [.ref 0])] (cliLayer [(0, [.text [49]])] [] {})) [] []).1 1 = [49] := by decide
-example : let e := (evalBlock ⟨shC, [], false⟩ [] (taskfileVars [(1, .lit [.ref 0]), (0, .lit [.text [100]])] (cliLayer [(0, [.text [49]])] [] {})) [] []).1
+example : get (evalBlock ⟨shC, [], false⟩ (fun _ => []) (taskfileVars [(1, .lit [.ref 0])] (cliLayer [(0, [.text [49]])] [] {})) [] []).1 1 = [] := by decide
+example : get (evalBlock ⟨shC, [], false⟩ (fun _ => []) (taskfileVars [(0, .lit [.text [100]]), (1, .lit [.ref 0])] (cliLayer [(0, [.text [49]])] [] {})) [] []).1 1 = [49] := by decide
+example : let e := (evalBlock ⟨shC, [], false⟩ (fun _ => []) (taskfileVars [(1, .lit [.ref 0]), (0, .lit [.text [100]])] (cliLayer [(0, [.text [49]])] [] {})) [] []).1
     (get e 1, get e 0) = ([], [49]) := by decide
 -- a global alias of CLI_ARGS is empty; a task-level reference (any later layer) sees it
-example : let e := (evalBlock ⟨shC, [], false⟩ [] (taskfileVars [(1, .lit [.ref nCLI_ARGS])] (cliLayer [] [97, 32, 98] {})) [] []).1
+example : let e := (evalBlock ⟨shC, [], false⟩ (fun _ => []) (taskfileVars [(1, .lit [.ref nCLI_ARGS])] (cliLayer [] [97, 32, 98] {})) [] []).1
     (get e 1, get e nCLI_ARGS) = ([], [97, 32, 98]) := by decide
 example : (names (cliLayer [(0, [.text [49]]), (5, []), (0, [.text [50]])] [] {})).Nodup ∧
     (cliLayer [(0, [.text [49]]), (5, []), (0, [.text [50]])] [] {}).lookup 0 = some (.lit [.text [50]]) := by decide
